@@ -170,8 +170,8 @@ CLAIMS = {
         'tricky scalars with 12 annotation layouts, all truncations of a sample and every ordered pair of the pool; an independent '
         'reference parser (regex + json.loads) as oracle; `enum: @name` against the inline list on the real loader (differential).',
    note='Trusted: Coq kernel; the model is a parser for the language, not a transcription of the state machine - the tie is the '
-        'correspondence; reference parser; harness. Partial: the converse (every enum text is accepted) is not proved, it is covered by the '
-        'correspondence and the oracle only; the named/inline equivalence is a differential test of the two code paths. A lone surrogate '
+        'correspondence; reference parser; harness. The converse (every enum text with pairwise different scalars is accepted and listed back) is proved for the '
+        'grammar with its reading conventions explicit (C17_complete). Partial: the named/inline equivalence is a differential test of the two code paths. A lone surrogate '
         'escape is read as U+FFFD (as the code does). No axioms.',
    technique='Coq soundness proof of a language model against an inductive grammar + token-exhaustive correspondence + reference-parser oracle',
    ref='section 9, C17'),
